@@ -87,7 +87,9 @@ pub fn gen_real_text(s: &mut Src) -> String {
     t
 }
 pub fn gen_name(s: &mut Src, wide: bool) -> String {
-    let n = match s.draw(5) { 0 => 0, 1 => 1, _ => 1 + s.draw(10) as usize };
+    let mut n = match s.draw(5) { 0 => 0, 1 => 1, _ => 1 + s.draw(10) as usize };
+    // now and then a name far beyond the lengths found in ordinary files (126/127/128 bytes and a few hundred)
+    if s.draw(40) == 0 { s.label("long_name"); n = match s.draw(4) { 0 => 126 + s.draw(4) as usize, 1 => 254 + s.draw(4) as usize, _ => 100 + s.draw(500) as usize }; }
     let mut out = String::new();
     for _ in 0..n {
         let c = match s.draw(if wide { 10 } else { 8 }) {
@@ -107,14 +109,31 @@ pub fn gen_value(s: &mut Src, o: &GenOpts, depth: u32) -> V {
     match s.draw(kinds) {
         0 => V::Int(gen_int(s)),
         1 => V::Real(gen_real_text(s)),
-        2 => V::Str(s.bytes(o.max_str)),
+        2 => match s.draw(24) {
+            0 => { s.label("long_string"); let n = match s.draw(4) { 0 => 254 + s.draw(4) as usize, 1 => 65534 + s.draw(4) as usize, _ => 100 + s.draw(5000) as usize }; let kind = s.draw(3); V::Str((0..n).map(|i| match kind { 0 => s.byte(), 1 => b"()\\\r\n ab"[i % 8], _ => 0x20 + s.draw(0x5f) as u8 }).collect()) }
+            // balanced parentheses, nested a little or very deeply, with text between them
+            1 | 2 => {
+                s.label("nested_parens");
+                let d = if s.draw(5) == 0 { s.label("deeply_nested_parens"); *s.pick(&[126usize, 127, 128, 129, 254, 255, 256, 257, 300, 1000, 5000, 32767, 32768, 65535, 65536, 70000]) } else { 1 + s.draw(6) as usize };
+                let mut v = Vec::new();
+                for i in 0..d { v.push(b'('); if i % 97 == 3 || d < 8 { if s.draw(2) == 0 { v.extend_from_slice(b"()"); } if s.draw(2) == 0 { let b = s.byte(); if b != b'(' && b != b')' { v.push(b); } } } }
+                v.extend_from_slice(b"x");
+                for i in 0..d { v.push(b')'); if i % 89 == 5 || d < 8 { if s.draw(2) == 0 { let b = s.byte(); if b != b'(' && b != b')' { v.push(b); } } } }
+                V::Str(v)
+            }
+            _ => V::Str(s.bytes(o.max_str)),
+        },
         3 => V::Name(gen_name(s, o.wide_names)),
         4 => V::Bool(s.draw(2) == 1),
         5 => V::Null,
         6 => if o.refs { V::Ref(s.draw(100000) as u64, if s.draw(4) == 0 { s.draw(65536) as u64 } else { 0 }) } else { V::Int(gen_int(s)) },
-        7 => { let n = s.draw(5) as usize; V::Arr((0..n).map(|_| gen_value(s, o, depth + 1)).collect()) }
+        // long containers hold leaves only (their size is the point, and the total stays bounded)
+        7 => if s.draw(24) == 0 { s.label("long_array"); let n = 60 + s.draw(600) as usize; V::Arr((0..n).map(|_| gen_value(s, o, o.depth)).collect()) } else { let n = s.draw(5) as usize; V::Arr((0..n).map(|_| gen_value(s, o, depth + 1)).collect()) }
         _ => {
-            let n = s.draw(5) as usize;
+            let long = s.draw(24) == 0;
+            if long { s.label("long_dict"); }
+            let n = if long { 40 + s.draw(200) as usize } else { s.draw(5) as usize };
+            let depth = if long { o.depth.max(1) - 1 } else { depth };
             let mut items: Vec<(String, V)> = Vec::new();
             for _ in 0..n {
                 let k = gen_name(s, o.wide_names);
